@@ -338,7 +338,7 @@ def _yaml(ctx, repo, m):
     while st:
         x = st.pop()
         for t, l in cfg.succ.get(x, []):
-            if t != lnode.id and t not in body_nodes and l != "exc":
+            if t != lnode.id and t not in body_nodes and l not in ("exc", "excp"):
                 body_nodes.add(t)
                 st.append(t)
     # restrict to nodes lexically inside the loop
